@@ -200,7 +200,7 @@ theorem T_C03_closed (v : Variant) (attr : Toks) (item : Item) (out : Out)
     simp only [expand] at h
     split at h
     · simp at h
-    · obtain ⟨items, a, fns, tg, depMode, implBlock, h0, h1, h2, _, h4, rfl⟩ := expandMod_ok h
+    · obtain ⟨items, a, fns0, fns, tg, depMode, implBlock, h0, h1, h2, hfns, _, h4, rfl⟩ := expandMod_ok h
       have him := genImplBlock_ok h4
       have hl : ∀ s ∈ (items.filterMap BodyItem.fn?).map (·.sig), s.generics.preds.all (closedOver s.generics.lifetimeNames) = true := by
         intro s hs
@@ -208,8 +208,11 @@ theorem T_C03_closed (v : Variant) (attr : Toks) (item : Item) (out : Out)
         have : (items.filterMap BodyItem.fn?).all (fun f => f.sig.generics.preds.all (closedOver f.sig.generics.lifetimeNames)) = true := by
           simpa only [Item.lifetimesOk, Item.sourceFns, h0] using hlt
         exact List.all_eq_true.mp this f hf
-      obtain ⟨c1, c2⟩ := closed_of_analysis .selfRef (v.apply a.opts) _ fns tg h2 hl
+      obtain ⟨c1, c2⟩ := closed_of_analysis .selfRef (v.apply a.opts) _ fns0 tg h2 hl
         (genTraitDef (v.apply a.opts) .plain depMode m.attrs a.traitVis a.traitIdent tg {} fns .module).lifetimeNames depMode
+      have hiw : implWherePreds depMode .none fns tg = implWherePreds depMode .none fns0 tg := by
+        subst hfns; unfold implWherePreds; rw [depsBounds_attachCfg]
+      rw [← hiw] at c2
       simp only [P_C03_closed, Out.view, View.items, Out.inside, Out.after, mainImpl?, mainTrait?, implsOf, traitsOf,
         List.cons_append, List.nil_append, List.getLast?_singleton, List.head?_cons, Bool.and_eq_true]
       rw [him]
